@@ -7,4 +7,10 @@ CLAIMED = {
         "note": "Trusted: Lean kernel (+propext, Classical.choice, Quot.sound), the correspondence harness, serde glue (validated by the JSON stream, not proved).",
         "technique": "Lean 4 proof (induction over operation lists) + model/implementation correspondence",
     },
+    "C12": {
+        "text": "Lean 4 theorems about a model whose bit masks, index split, size formula and bounds tests are REGENERATED from status_list.rs on every run: complete byte table (256 bytes x 8 written offsets x 8 read offsets x 2 values, decide +kernel) lifted to lists of any length: get-after-set, writes never disturb another entry, out-of-range = error (never panic), new() size/zero spec, read = last write over any write sequence (induction), one-way revocation over any set_entry history, suspension clearable, full characterisation of check_status_with_status_list_2021. Correspondence run drives the same table and random histories through the public API.",
+        "design_ref": "DESIGN.md §7.12",
+        "note": "Trusted: Lean kernel, translator (tools/translate.py), correspondence harness; gzip/base64 codec abstract (round trip exercised, not proved); serde/Url glue by correspondence.",
+        "technique": "Lean 4 proof over regenerated model fragments (decide +kernel byte table + induction) + correspondence",
+    },
 }
